@@ -685,3 +685,57 @@ def rule_B5(ctx, prog, label, rule='B5'):
                               ('table %d for %s starts at row `%s`, expected the prefix sum `%s`' % (j, callee.name, bad[2], bad[3]) if bad else ''), {}, label))
     rr.require_floor(40, 'table/width pairs')
     return rr
+
+
+COUNT_GUARDED = ['_mzd_ple_a11_1'] + ['_mzd_ple_a11_%d' % i for i in range(2, 9)] + ['mzd_combine_even_in_place', 'mzd_combine_even']
+
+
+def rule_B2c(ctx, prog, label, rule='B2c'):
+    """Unrolled kernels execute a full unit even for a zero count (Duff devices run their body once, the scalar
+    _mzd_combine xors eight words): the functions that may see a zero word count guard the kernel with a test of the
+    count against zero.  The guarded sites were confirmed on the pinned tree; each guard must still dominate its kernel."""
+    from .cfg import cfg_of
+    from .symbolic import FuncSym
+    rr = RuleResult(rule, 'word-count guards (`if (wide <= 0) return` / `if (wide > 0)`) still dominate the unrolled kernels they protect')
+    for name in COUNT_GUARDED:
+        f = prog.func(name)
+        fs = FuncSym(f)
+        g = cfg_of(f)
+        dom = g.dominators()
+        kernels = []
+        for c in f.body.find('CallExpr'):
+            if callee_name(c) and callee_name(c).startswith('_mzd_combine') and len(c.kids) >= 4:
+                w = strip(c.kids[3], casts=True)
+                if w.kind == 'DeclRefExpr':
+                    kernels.append((c, w.refid, w.ref))
+        for sw in f.body.find('SwitchStmt'):
+            dc = _modulus_disc(f, sw)
+            if dc is not None and sw.kids[-1].find('DoStmt'):
+                w = strip(dc.kids[0], casts=True)
+                if w.kind == 'DeclRefExpr':
+                    kernels.append((sw.kids[-2], w.refid, w.ref))
+        if not kernels:
+            raise AnalysisBroken('B2c: no unrolled kernel found in %s any more' % name)
+        for (k, wid, wname) in kernels:
+            rr.instances += 1
+            kn = None
+            for cn in g.nodes:
+                if cn.ast is not None and any(x is k for x in cn.ast.walk()):
+                    kn = cn
+            ok = False
+            for cn in g.nodes:
+                if cn.kind != 'branch' or kn is None or cn.id not in dom.get(kn.id, ()):
+                    continue
+                c = strip(cn.ast, casts=True)
+                if c.kind == 'UnaryOperator' and c.op == '!':
+                    x = strip(c.kids[0], casts=True)
+                    if x.kind == 'DeclRefExpr' and x.refid == wid:
+                        ok = True
+                if c.kind == 'BinaryOperator' and c.op in ('<=', '>', '==', '!=', '<', '>='):
+                    l, r = strip(c.kids[0], casts=True), c.kids[1]
+                    if l.kind == 'DeclRefExpr' and l.refid == wid and int_value(r) in (0, 1):
+                        ok = True
+            rr.ob(ok, dict(function=name, counter=wname),
+                  Finding(rule, '%s|%s|%s' % (rule, name, wname), k.loc, name,
+                          'the unrolled kernel in %s is no longer guarded by a test of `%s` against zero: with a zero word count the scalar kernels still xor a full unit (8 words) past the row' % (name, wname), {}, label))
+    return rr
